@@ -150,6 +150,10 @@ impl Run {
     });
     e.1 += n;
   }
+  /// (key, description) of the violations recorded so far (used by replay handlers that run a check on one case)
+  pub fn violations_snapshot(&self) -> Vec<(String, String)> {
+    self.inner.lock().unwrap().violations.values().map(|(v, _)| (v.key.clone(), v.what.clone())).collect()
+  }
   pub fn machinery_error(&self, what: &str) {
     self.inner.lock().unwrap().machinery_errors.push(what.to_string());
   }
